@@ -212,12 +212,14 @@ class State:
         s.hidden = False
         s.acc = []         # (kind, off, count, span, J?) pending obligations
         s.moves = []       # block moves inside the buffer in execution order: (src offset, dst offset, count)
+        s.pre_moves = []   # every block move made outside loops since the window opened (kept across loops)
     def fork(s):
         t = State()
         t.env = dict(s.env); t.fields = dict(s.fields); t.sub = s.sub.clone()
         t.vlen, t.L0, t.cap, t.hidden = s.vlen, s.L0, s.cap, s.hidden
         t.acc = list(s.acc)
         t.moves = list(s.moves)
+        t.pre_moves = list(s.pre_moves)
         return t
 
 
@@ -471,6 +473,8 @@ class Sym:
                 if P.moves:
                     P.acc.append(("ORDER", "block move %r -> %r (%r cells) after block move %r -> %r (%r cells)" % (mv + P.moves[-1]), (P.moves[-1], mv), t["span"]))
                 P.moves.append(mv)
+                if getattr(s, "in_loop", None) is None:
+                    P.pre_moves.append(mv)
             return [(P, Unk("elem"))]
         if re.match(r"^core::ptr::(mut_ptr|const_ptr)::<impl \*(mut|const) T>::(add|sub|offset|wrapping_add|wrapping_sub)$", opath) and isinstance(a0v, Ptr) and isinstance(args[1], Poly):
             return [(P, Ptr(a0v.off + args[1] if name in ("add", "offset", "wrapping_add") else a0v.off - args[1]))]
@@ -486,6 +490,15 @@ class Sym:
                     # the length handed to Vec must not exceed what was reserved
                     if P.cap is not None:
                         P.acc.append(("WRITE", "set_len(%r) within the reserved capacity %r" % (args[1], P.cap), P.cap - args[1], t["span"]))
+                    if P.hidden and P.L0 is not None and P.vlen is not None and P.vlen == ZERO and getattr(s, "in_loop", None) is None:
+                        # closing a window that grows the buffer: the cells behind the old end must have been filled - by the
+                        # block move that carries the old tail to the new end (an insertion in the middle), or, when nothing was
+                        # shifted at all, only if the new cells were written at the very end.  Decided structurally: some
+                        # block move made before the loops ends exactly at the new length.
+                        grow = args[1] - P.L0
+                        if P.sub.sign(-grow)[0] != "nonneg" and not (grow == ZERO):
+                            reaches = any((dst + cnt) == args[1] for (src, dst, cnt) in P.pre_moves)
+                            P.acc.append(("TAIL", "a block move carries the old tail to the end of the grown buffer (new length %r)" % (args[1],), ONE if reaches else -ONE, t["span"]))
                     P.vlen = args[1]
                 return [(P, Tup([]))]
             if name in ("reserve", "reserve_exact") and isinstance(args[1], Poly):
@@ -862,6 +875,16 @@ def r_rawbounds(f):
                 continue
             if kind == "count" :
                 # wrapping subtraction feeding an access is judged through the access itself
+                continue
+            if kind == "TAIL":
+                nsite += 1
+                if T == ONE:
+                    ok_n += 1
+                else:
+                    bad_n += 1
+                    if "tail" not in seen_bad:
+                        seen_bad.add("tail")
+                        R.fail(b.ident, "no-tail-shift", "%s grows the buffer and restores the length, but no block move carries the old tail to the new end: unless the line is inserted at the very end, the cells behind the old length are never initialised and the cells at the insertion point are overwritten" % b.ident, b.where(span))
                 continue
             if kind == "ORDER":
                 # two consecutive block moves inside one buffer: when both shift right (dst >= src) the later one must read
